@@ -28,6 +28,7 @@ import (
 type tailEnv struct {
 	dir, path     string
 	cancel        context.CancelFunc
+	npat          int
 	drained       chan struct{} // closed when the collector has seen the lines channel close
 	wg            sync.WaitGroup
 	lines         chan *logline.LogLine
@@ -49,6 +50,9 @@ func withTimeout(d time.Duration, f func()) bool {
 		return false
 	}
 }
+
+// tailEnvTwoPatterns makes the next environment tail its file through two overlapping patterns.
+var tailEnvTwoPatterns bool
 
 // tailEnvInitial is what the tailed file holds before the tailer starts (C16 `pre:` step).
 var tailEnvInitial []byte
@@ -82,7 +86,11 @@ func newTailEnv(existing bool, patterns []string, ignore string, dirOverride str
 	}()
 	if patterns == nil {
 		patterns = []string{e.path}
+		if tailEnvTwoPatterns {
+			patterns = append(patterns, filepath.Join(dir, "lo?"))
+		}
 	}
+	e.npat = len(patterns)
 	e.sw, e.pw = newHWaker(), newHWaker()
 	var sww, pww waker.Waker = e.sw, e.pw
 	opts := []tailer.Option{tailer.LogPatterns(patterns), tailer.LogPatternPollWaker(pww), tailer.LogstreamPollWaker(sww)}
@@ -301,7 +309,11 @@ func c16Run(r *runCtx, id string, f []string) {
 	if strings.HasPrefix(ops[0], "pre:") {
 		tailEnvInitial = []byte(unhx(ops[0][4:]))
 	}
+	// the path is matched twice, by its own name and by a glob over its directory: both pattern
+	// pollers find a re-created file in the same poll
+	tailEnvTwoPatterns = true
 	env, err := newTailEnv(true, nil, "", "")
+	tailEnvTwoPatterns = false
 	tailEnvInitial = nil
 	if err != nil {
 		r.obs(id, "ENV-ERROR")
@@ -361,7 +373,7 @@ func c16Run(r *runCtx, id string, f []string) {
 		if exists {
 			afterPoll = 1
 		}
-		env.observe(after, afterPoll, 1)
+		env.observe(after, afterPoll, env.npat)
 	}
 	got := env.snapshot()
 	lines := make([]string, len(got))
